@@ -5,9 +5,11 @@
  *
  *   M <pattern> <required> <form s|d>                       | <granted 0|1>
  *       one-entry user, FilterUtility::HasPermission(user, required)        (glob semantics)
- *   C <inventory>                                           inventory = T:name:mask,... (T = H|S) or -
- *       start of a case: exactly these objects are registered; vars.b0..b3 = bits of mask, vars.n = mask
- *   P <pattern> <filter|-> <form s|d>                       | <truth table over the inventory | ->
+ *   C <inventory>                                           inventory = T:name:mask[:ce[:cp]],... (T = H|S) or -
+ *       start of a case: exactly these objects are registered, in this order; vars.b0..b3 = bits of mask, vars.n = mask;
+ *       ce = command_endpoint (e1|e2|-), cp = check_period (tp1|tp2|-): nullable navigation fields (joins)
+ *   P <pattern> <filter|-> <form s|d>                       | <truth table over the inventory (e = raises) | ->
+ *       if the filter reads `service`: further rows /<row> per service of the inventory = values with `service` bound to it
  *       appends one entry to the case's ApiUser (s = plain string, d = {permission, filter} dictionary)
  *   Q <perm> <types> <prov c|l> [n:T=a[,b..]] [p:T=a,b] [t=Type] [f=<filter>]
  *                                                           | ok <T/name,..|-> | err <kind>   log=<..|?> ft=<truth, e = raises|-> fast=<-|[a,b]> tv=<0|1>
@@ -24,14 +26,24 @@
  *       m = POST /v1/objects/<plural>[/name] with attrs={} (ModifyObjectHandler).  Plural names travel as URL parameters,
  *       filter and filter_vars in the JSON body.
  *
+ *       Further verbs: d = DELETE /v1/objects/.. (DeleteObjectHandler; refused with 500 per object because the objects were
+ *       not created through the API), a:<action> = POST /v1/actions/<action>?type=<Type>[&host=..] (ActionsHandler).
+ *   G <templates|variables|types|status|console>             | <http status> <number of results>
+ *       handlers whose targets are not config objects (permission strings templates/query/Host, variables, types,
+ *       status/query, console)
+ *
  * Filter syntax (prefix, no blanks; V = o|h|s for obj/host/service):
  *   T F | v<K><V> (V.vars.b<K>) | c<K><V> (V.vars.n == K) | n<V>=<name>; (V.name == "name") | q<V>=<name>; ("name" == V.name)
- *   | x<V>=<name>; (V.name == fvI, filter_vars{fvI: name}) | m<V>~<pat>; (match("pat", V.name)) | !A | &AB | |AB | E (text that does not compile: raises when evaluated)
+ *   | x<V>=<name>; (V.name == fvI, filter_vars{fvI: name}) | m<V>~<pat>; (match("pat", V.name))
+ *   | je=<name>; (command_endpoint.name == "name") | jp=<name>; (check_period.name == "name")   top-level joins of the target, may be null
+ *   | !A | &AB | |AB | E (text that does not compile: raises when evaluated)
  *
  * Modes:  gen --seed S --tier quick|thorough     |     ops FILE  (text after ' | ' ignored)
  */
 #include "common.hpp"
 #include "remote/apiuser.hpp"
+#include "remote/endpoint.hpp"
+#include "icinga/timeperiod.hpp"
 #include "remote/filterutility.hpp"
 #include "config/configcompiler.hpp"
 #include "config/expression.hpp"
@@ -88,6 +100,7 @@ struct Item {
 	bool host;
 	std::string name;      /* full name */
 	int mask;
+	std::string ce, cp;    /* command_endpoint / check_period, empty = null join */
 	ConfigObject::Ptr obj;
 };
 
@@ -96,6 +109,22 @@ static std::map<std::string, Service::Ptr> l_Services;
 static std::map<ConfigObject *, int> l_Mask;
 static std::vector<Item> l_Inv;
 static std::vector<ConfigObject::Ptr> l_Registered;
+
+static std::map<ConfigObject *, std::pair<std::string, std::string>> l_Joins;
+
+static void SetJoins(const ConfigObject::Ptr& o, const std::string& ce, const std::string& cp)
+{
+	Checkable::Ptr c = static_pointer_cast<Checkable>(o);
+	c->SetCommandEndpointRaw(String(ce));
+	c->SetCheckPeriodRaw(String(cp));
+	l_Joins[o.get()] = { ce, cp };
+}
+
+static void InitJoinTargets()
+{
+	for (const char *n : { "e1", "e2" }) { Endpoint::Ptr e = new Endpoint(); e->SetName(n); e->Register(); }
+	for (const char *n : { "tp1", "tp2" }) { TimePeriod::Ptr t = new TimePeriod(); t->SetName(n); t->Register(); }
+}
 
 static void SetMask(const ConfigObject::Ptr& o, int mask)
 {
@@ -140,13 +169,13 @@ static bool SetInventory(const std::string& spec)
 	for (auto& o : l_Registered) o->Unregister();
 	l_Registered.clear();
 	l_Inv.clear();
-	for (auto& kv : l_Hosts) SetMask(kv.second, 0);
-	for (auto& kv : l_Services) SetMask(kv.second, 0);
+	for (auto& kv : l_Hosts) { SetMask(kv.second, 0); SetJoins(kv.second, "", ""); }
+	for (auto& kv : l_Services) { SetMask(kv.second, 0); SetJoins(kv.second, "", ""); }
 	if (spec == "-") return true;
 	std::set<std::string> seen;
 	for (auto& part : Split(spec, ',')) {
 		auto f = Split(part, ':');
-		if (f.size() != 3 || (f[0] != "H" && f[0] != "S") || f[1].empty()) return false;
+		if (f.size() < 3 || f.size() > 5 || (f[0] != "H" && f[0] != "S") || f[1].empty()) return false;
 		if (!seen.insert(f[0] + ":" + f[1]).second) return false;
 		Item it;
 		it.host = f[0] == "H";
@@ -156,6 +185,11 @@ static bool SetInventory(const std::string& spec)
 		it.obj->Register();
 		l_Registered.push_back(it.obj);
 		SetMask(it.obj, it.mask);
+		it.ce = f.size() > 3 && f[3] != "-" ? f[3] : "";
+		it.cp = f.size() > 4 && f[4] != "-" ? f[4] : "";
+		if (!it.ce.empty() && it.ce != "e1" && it.ce != "e2") return false;
+		if (!it.cp.empty() && it.cp != "tp1" && it.cp != "tp2") return false;
+		SetJoins(it.obj, it.ce, it.cp);
 		l_Inv.push_back(it);
 	}
 	return true;
@@ -199,6 +233,18 @@ static std::unique_ptr<F> ParseF(const std::string& t, size_t& i)
 		i = e + 1;
 		return f;
 	}
+	case 'j': {
+		if (i + 1 >= t.size() || (t[i] != 'e' && t[i] != 'p') || t[i + 1] != '=') return nullptr;
+		f->v = t[i];
+		i += 2;
+		auto e = t.find(';', i);
+		if (e == std::string::npos) return nullptr;
+		f->s = t.substr(i, e - i);
+		if (f->s.empty()) return nullptr;
+		for (char c : f->s) if (c == '"' || c == '\\') return nullptr;
+		i = e + 1;
+		return f;
+	}
 	case '!':
 		f->a = ParseF(t, i);
 		return f->a ? std::move(f) : nullptr;
@@ -233,6 +279,7 @@ static void Dsl(const F& f, std::string& out, Dictionary::Ptr& fvars)
 	case 'n': out += std::string(VarName(f.v)) + ".name == \"" + f.s + "\""; break;
 	case 'q': out += "\"" + f.s + "\" == " + VarName(f.v) + ".name"; break;
 	case 'm': out += "match(\"" + f.s + "\", " + VarName(f.v) + ".name)"; break;
+	case 'j': out += std::string(f.v == 'e' ? "command_endpoint" : "check_period") + ".name == \"" + f.s + "\""; break;
 	case 'x': {
 		if (!fvars) fvars = new Dictionary();
 		std::string key = "fv" + std::to_string(fvars->GetLength());
@@ -259,8 +306,9 @@ static bool UsesVar(const F& f, char v)
 }
 
 /* The harness's own evaluation of a filter on an object: 1/0, or -1 when the DSL would raise an error
- * (variable `service` on a host). Independent of FilterUtility. */
-static int Eval(const F& f, const Item& it)
+ * (variable `service` on a host when nothing bound it). Independent of FilterUtility.  `svc`: what the name
+ * `service` is bound to when the target is a host (nullptr: unbound - the object evaluated alone). */
+static int Eval(const F& f, const Item& it, const Item *svc = nullptr)
 {
 	auto resolve = [&](char v, ConfigObject *& o, bool& isHost) -> bool {
 		if (v == 'o') { o = it.obj.get(); isHost = it.host; return true; }
@@ -268,7 +316,10 @@ static int Eval(const F& f, const Item& it)
 			if (it.host) { o = it.obj.get(); isHost = true; return true; }
 			o = static_cast<Service *>(it.obj.get())->GetHost().get(); isHost = true; return o != nullptr;
 		}
-		if (it.host) return false;
+		if (it.host) {
+			if (!svc) return false;
+			o = svc->obj.get(); isHost = false; return true;
+		}
 		o = it.obj.get(); isHost = false; return true;
 	};
 	auto nameOf = [&](ConfigObject *o, bool isHost) -> std::string {
@@ -283,9 +334,10 @@ static int Eval(const F& f, const Item& it)
 	case 'c': if (!resolve(f.v, o, isHost)) return -1; return l_Mask[o] == f.k;
 	case 'n': case 'q': case 'x': if (!resolve(f.v, o, isHost)) return -1; return nameOf(o, isHost) == f.s;
 	case 'm': if (!resolve(f.v, o, isHost)) return -1; return Utility::Match(f.s, nameOf(o, isHost)) ? 1 : 0;
-	case '!': { int a = Eval(*f.a, it); return a < 0 ? -1 : !a; }
-	case '&': { int a = Eval(*f.a, it); if (a <= 0) return a; return Eval(*f.b, it); }
-	case '|': { int a = Eval(*f.a, it); if (a != 0) return a; return Eval(*f.b, it); }
+	case 'j': return (f.v == 'e' ? it.ce : it.cp) == f.s && !f.s.empty();
+	case '!': { int a = Eval(*f.a, it, svc); return a < 0 ? -1 : !a; }
+	case '&': { int a = Eval(*f.a, it, svc); if (a <= 0) return a; return Eval(*f.b, it, svc); }
+	case '|': { int a = Eval(*f.a, it, svc); if (a != 0) return a; return Eval(*f.b, it, svc); }
 	}
 	return -1;
 }
@@ -300,6 +352,25 @@ static std::string Truth(const F& f, const char *onlyType = nullptr)
 		if (onlyType && std::string(onlyType) != (it.host ? "Host" : "Service")) { t += '0'; continue; }
 		int r = Eval(f, it);
 		t += r < 0 ? 'e' : r > 0 ? '1' : '0';
+	}
+	return t;
+}
+
+/* Truth table of a permission filter: first row = every object evaluated alone; if the filter reads `service`,
+ * one more row per service of the inventory (in inventory order) = the hosts evaluated with `service` bound to
+ * that service (columns of services repeat the first row: a service always binds `service` to itself). */
+static std::string PermTruth(const F& f)
+{
+	if (l_Inv.empty()) return "-";
+	std::string t = Truth(f);
+	if (!UsesVar(f, 's')) return t;
+	for (auto& s : l_Inv) {
+		if (s.host) continue;
+		t += '/';
+		for (auto& it : l_Inv) {
+			int r = it.host ? Eval(f, it, &s) : Eval(f, it);
+			t += r < 0 ? 'e' : r > 0 ? '1' : '0';
+		}
 	}
 	return t;
 }
@@ -400,11 +471,11 @@ static bool DoP(const std::vector<std::string>& w)
 	std::unique_ptr<F> f;
 	if (w[2] != "-") {
 		f = ParseFilter(w[2]);
-		if (!f || HasKind(*f, "xE") || UsesVar(*f, 's')) return false;
+		if (!f || HasKind(*f, "xE")) return false;
 	}
 	bool dict = w[3] == "d" || f;
 	l_Perms->Add(MakeEntry(pat, f.get(), dict));
-	printf("P %s %s %s | %s\n", w[1].c_str(), w[2].c_str(), dict ? "d" : "s", f ? Truth(*f).c_str() : "-");
+	printf("P %s %s %s | %s\n", w[1].c_str(), w[2].c_str(), dict ? "d" : "s", f ? PermTruth(*f).c_str() : "-");
 	return true;
 }
 
@@ -544,7 +615,8 @@ static bool DoA(const std::vector<std::string>& w)
 		if (!g) { bits += '0'; continue; }
 		ScriptFrame frame(false, new Namespace());
 		bool ok;
-		try { ok = FilterUtility::EvaluateFilter(frame, pf.get(), it.obj); } catch (const std::exception&) { ok = false; bits += 'e'; continue; }
+		/* like objectqueryhandler.cpp:284-288: an error raised by the filter counts as "not allowed" */
+		try { ok = FilterUtility::EvaluateFilter(frame, pf.get(), it.obj); } catch (const ScriptError&) { ok = false; }
 		bits += ok ? '1' : '0';
 	}
 	if (bits.empty()) bits = "-";
@@ -591,26 +663,48 @@ static std::string UrlEnc(const std::string& s)
 	return out;
 }
 
+static bool Dispatch(boost::beast::http::request<boost::beast::http::string_body>& req,
+	boost::beast::http::response<boost::beast::http::string_body>& resp)
+{
+	bool crashed = false;
+	req.set(boost::beast::http::field::accept, "application/json");
+	req.prepare_payload();
+	IoEngine::SpawnCoroutine(l_Io, [&](boost::asio::yield_context yc) {
+		try { HttpHandler::ProcessRequest(*l_Stream, l_User, req, resp, yc, *l_Conn); } catch (const std::exception&) { crashed = true; }
+	});
+	l_Io.run();
+	l_Io.restart();
+	return !crashed;
+}
+
+/* verbs: q = GET /v1/objects, m = POST /v1/objects (attrs={}), d = DELETE /v1/objects (the objects were not created through
+ * the API, so every deletion is refused with code 500 and nothing changes), a:<action> = POST /v1/actions/<action>
+ * (type and name travel as URL parameters; results carry the object name only inside the status text) */
 static bool DoH(const std::vector<std::string>& w)
 {
 	namespace http = boost::beast::http;
 	if (w.size() < 3 || !l_HttpOk) return false;
-	bool modify = w[1] == "m";
-	if (!modify && w[1] != "q") return false;
+	std::string verb = w[1];
+	bool action = verb.compare(0, 2, "a:") == 0;
+	if (!action && verb != "q" && verb != "m" && verb != "d") return false;
 	bool svc = w[2] == "Service";
 	if (!svc && w[2] != "Host") return false;
-	std::string target = std::string("/v1/objects/") + (svc ? "services" : "hosts");
+	std::string target = action ? "/v1/actions/" + verb.substr(2) : std::string("/v1/objects/") + (svc ? "services" : "hosts");
 	std::string qs;
+	auto addQ = [&](const std::string& k, const std::string& v) { qs += (qs.empty() ? "?" : "&") + k + "=" + UrlEnc(v); };
+	if (action) addQ("type", w[2]);
 	Dictionary::Ptr body = new Dictionary();
 	bool joins = false;
 	std::string ft = "-", fast = "-";
 	for (size_t i = 3; i < w.size(); i++) {
 		const std::string& tok = w[i];
-		if (tok.compare(0, 2, "n=") == 0) target += "/" + UrlEnc(Dec(tok.substr(2)));
-		else if (tok.compare(0, 2, "p=") == 0) {
+		if (tok.compare(0, 2, "n=") == 0) {
+			if (action) addQ(svc ? "service" : "host", Dec(tok.substr(2)));
+			else target += "/" + UrlEnc(Dec(tok.substr(2)));
+		} else if (tok.compare(0, 2, "p=") == 0) {
 			std::string rest = tok.substr(2);
 			if (rest.empty()) body->Set(svc ? "services" : "hosts", new Array());
-			else for (auto& n : Split(rest, ',')) qs += (qs.empty() ? "?" : "&") + std::string(svc ? "services=" : "hosts=") + UrlEnc(Dec(n));
+			else for (auto& n : Split(rest, ',')) addQ(svc ? "services" : "hosts", Dec(n));
 		} else if (tok.compare(0, 2, "f=") == 0) {
 			auto uf = ParseFilter(tok.substr(2));
 			if (!uf) return false;
@@ -623,32 +717,37 @@ static bool DoH(const std::vector<std::string>& w)
 		} else if (tok == "j") joins = true;
 		else return false;
 	}
-	if (modify) body->Set("attrs", new Dictionary());
-	else {
+	if (verb == "m") body->Set("attrs", new Dictionary());
+	else if (verb == "q") {
 		body->Set("attrs", new Array({ String("name") }));
 		if (joins && svc) body->Set("joins", new Array({ String("host.name") }));
 	}
-	http::request<http::string_body> req{modify ? http::verb::post : http::verb::get, target + qs, 11};
-	req.set(http::field::accept, "application/json");
+	http::verb hv = verb == "q" ? http::verb::get : verb == "d" ? http::verb::delete_ : http::verb::post;
+	http::request<http::string_body> req{hv, target + qs, 11};
 	req.body() = JsonEncode(body).GetData();
-	req.prepare_payload();
 	http::response<http::string_body> resp;
-	bool crashed = false;
-	IoEngine::SpawnCoroutine(l_Io, [&](boost::asio::yield_context yc) {
-		try { HttpHandler::ProcessRequest(*l_Stream, l_User, req, resp, yc, *l_Conn); } catch (const std::exception&) { crashed = true; }
-	});
-	l_Io.run();
-	l_Io.restart();
+	bool ok = Dispatch(req, resp);
 	std::vector<std::string> names, joined;
-	int status = crashed ? 599 : (int)resp.result_int();
-	if (status == 200) {
+	int status = !ok ? 599 : (int)resp.result_int();
+	if (status == 200 || status == 500) {
 		try {
 			Dictionary::Ptr r = JsonDecode(resp.body());
 			Array::Ptr results = r->Get("results");
 			ObjectLock olock(results);
 			for (const Dictionary::Ptr& one : results) {
-				std::string nm = String(one->Get("name")).GetData();
-				names.push_back(std::string(String(one->Get("type")).GetData()) + "/" + nm);
+				std::string nm, ty;
+				if (action) {
+					std::string st = String(one->Get("status")).GetData();
+					auto a = st.find('\''), b = st.rfind('\'');
+					if (a == std::string::npos || b <= a) { status = 597; break; }
+					nm = st.substr(a + 1, b - a - 1);
+					ty = nm.find('!') == std::string::npos ? "Host" : "Service";
+					if ((int)one->Get("code") != 200) status = 596;
+				} else {
+					nm = String(one->Get("name")).GetData();
+					ty = String(one->Get("type")).GetData();
+				}
+				names.push_back(ty + "/" + nm);
 				Dictionary::Ptr j = one->Get("joins");
 				bool hostKnown = false;
 				auto pos = nm.find('!');
@@ -664,6 +763,38 @@ static bool DoH(const std::vector<std::string>& w)
 	std::string pre;
 	for (size_t i = 0; i < w.size(); i++) pre += (i ? " " : "") + w[i];
 	printf("%s | %d %s jn=%s ft=%s fast=%s\n", pre.c_str(), status, join(names).c_str(), join(joined).c_str(), ft.c_str(), fast.c_str());
+	return true;
+}
+
+/* G <kind>: a request to a handler whose targets are not config objects; observed: status and number of results.
+ *   templates = GET /v1/templates/hosts, variables = GET /v1/variables, types = GET /v1/types, status = GET /v1/status/IcingaApplication,
+ *   console = POST /v1/console/execute-script?command=1&session=verif */
+static bool DoG(const std::vector<std::string>& w)
+{
+	namespace http = boost::beast::http;
+	if (w.size() < 2 || !l_HttpOk) return false;
+	const std::string& k = w[1];
+	http::verb hv = http::verb::get;
+	std::string target;
+	if (k == "templates") target = "/v1/templates/hosts";
+	else if (k == "variables") target = "/v1/variables";
+	else if (k == "types") target = "/v1/types";
+	else if (k == "status") target = "/v1/status/IcingaApplication";
+	else if (k == "console") { target = "/v1/console/execute-script?command=1&session=verif"; hv = http::verb::post; }
+	else return false;
+	http::request<http::string_body> req{hv, target, 11};
+	http::response<http::string_body> resp;
+	bool ok = Dispatch(req, resp);
+	int status = !ok ? 599 : (int)resp.result_int();
+	long count = -1;
+	if (status == 200) {
+		try {
+			Dictionary::Ptr r = JsonDecode(resp.body());
+			Array::Ptr results = r->Get("results");
+			count = results ? (long)results->GetLength() : -1;
+		} catch (const std::exception&) { status = 598; }
+	}
+	printf("G %s | %d %ld\n", k.c_str(), status, count);
 	return true;
 }
 
@@ -684,6 +815,7 @@ static bool DoLine(const std::string& line)
 	if (w[0] == "Q") return DoQ(w);
 	if (w[0] == "A") return DoA(w);
 	if (w[0] == "H") return DoH(w);
+	if (w[0] == "G") return DoG(w);
 	if (w[0][0] == '#') return true;
 	return false;
 }
@@ -702,7 +834,8 @@ static void Run(const std::string& line)
 static const char *kRequired[] = {
 	"objects/query/Host", "objects/query/Service", "objects/modify/Host", "objects/modify/Service",
 	"objects/delete/Host", "objects/delete/Service", "actions/reschedule-check", "actions/acknowledge-problem",
-	"actions/process-check-result", "status/query", "console", "events/CheckResult"
+	"actions/remove-acknowledgement", "status/query", "console", "events/CheckResult", "actions/process-check-result",
+	"variables", "types", "templates/query/Host"
 };
 static const int kRequiredN = sizeof(kRequired) / sizeof(*kRequired);
 
@@ -745,9 +878,11 @@ static const char *kSvcShort[] = { "s0", "s1", "ping" };
 static std::string GenAtom(Rng& r, bool perm, bool svcType, bool allowX)
 {
 	char v;
-	if (perm) v = r.coin() ? 'o' : 'h';
+	if (perm) v = r.below(6) == 0 ? 's' : r.coin() ? 'o' : 'h';   /* `service` on a host: unbound, or left over (F-C18a) */
 	else v = svcType ? "ohs"[r.below(3)] : "oh"[r.below(2)];
 	std::string name = (v == 's' || (v == 'o' && svcType)) ? kSvcShort[r.below(3)] : kHostNames[r.below(4)];
+	if (r.below(5) == 0) /* a top-level join of the target that may be null */
+		return r.below(3) ? std::string("je=") + (r.coin() ? "e1" : "e2") + ";" : std::string("jp=") + (r.coin() ? "tp1" : "tp2") + ";";
 	switch (r.below(allowX ? 9 : 8)) {
 	case 0: case 1: case 2: return "v" + std::to_string(r.below(4)) + v;
 	case 3: return "c" + std::to_string(r.below(16)) + v;
@@ -803,14 +938,24 @@ static void GenCase(Rng& r)
 {
 	/* inventory */
 	std::string inv;
+	std::vector<std::string> items;
+	auto joinsOf = [&]() {
+		std::string ce = r.below(5) < 2 ? (r.below(3) ? "e1" : "e2") : "-";
+		std::string cp = r.below(4) == 0 ? (r.coin() ? "tp1" : "tp2") : "-";
+		if (ce == "-" && cp == "-") return std::string();
+		return ":" + ce + (cp == "-" ? "" : ":" + cp);
+	};
 	int density = 1 + (int)r.below(3);
 	for (int i = 0; i < 4; i++)
 		if ((int)r.below(4) < density)
-			inv += (inv.empty() ? "" : ",") + std::string("H:") + kHostNames[i] + ":" + std::to_string(r.below(16));
+			items.push_back(std::string("H:") + kHostNames[i] + ":" + std::to_string(r.below(16)) + joinsOf());
 	for (int i = 0; i < 4; i++)
 		for (int j = 0; j < 3; j++)
 			if (r.below(6) == 0) /* services may exist without their host being in the inventory */
-				inv += (inv.empty() ? "" : ",") + std::string("S:") + kHostNames[i] + "!" + kSvcShort[j] + ":" + std::to_string(r.below(16));
+				items.push_back(std::string("S:") + kHostNames[i] + "!" + kSvcShort[j] + ":" + std::to_string(r.below(16)) + joinsOf());
+	/* registration order = enumeration order of type/filter queries: shuffled */
+	for (size_t i = items.size(); i > 1; i--) std::swap(items[i - 1], items[r.below(i)]);
+	for (auto& it : items) inv += (inv.empty() ? "" : ",") + it;
 	if (inv.empty()) inv = "-";
 	Run("C " + inv);
 
@@ -888,18 +1033,44 @@ static void GenCase(Rng& r)
 		Run("Q " + Enc(perm) + " " + types + " c" + q);
 		Run("Q " + Enc(perm) + " " + types + " l" + q);
 	}
+	/* one request visiting several objects, in every order: plural name lists in all permutations */
+	for (int host = 0; host < 2; host++) {
+		std::vector<std::string> have;
+		for (auto& it : l_Inv) if (it.host == (host == 1)) have.push_back(it.name);
+		bool typeOk = actions || (host == 1) == !svcPerm;
+		if (have.size() < 2 || !typeOk || r.below(3) == 0) continue;
+		for (size_t i = have.size(); i > 1; i--) std::swap(have[i - 1], have[r.below(i)]);
+		if (have.size() > 3) have.resize(3);
+		std::sort(have.begin(), have.end());
+		std::string T = host ? "Host" : "Service";
+		std::string types = actions ? "Host,Service" : T;
+		bool withFilter = r.below(4) == 0;
+		std::string tail = " t=" + T + (withFilter ? " f=" + GenFilter(r, 1, false, !host) : "");
+		do {
+			std::string names;
+			for (size_t i = 0; i < have.size(); i++) names += (i ? "," : "") + have[i];
+			Run("Q " + Enc(req) + " " + types + " c p:" + T + "=" + names + tail);
+			Run("Q " + Enc(req) + " " + types + " l p:" + T + "=" + names + tail);
+			if (l_HttpOk && req.compare(0, 8, "objects/") == 0)
+				Run(std::string("H ") + req[8] + " " + T + " p=" + names);
+			else if (l_HttpOk && (req == "actions/reschedule-check" || req == "actions/remove-acknowledgement"))
+				Run("H a:" + req.substr(8) + " " + T + " p=" + names);
+		} while (std::next_permutation(have.begin(), have.end()));
+	}
 	if (l_HttpOk) {
 		auto pickH = [&](bool host) { std::string n = PickName(r, host); return n == "%e" ? std::string("nope") : n; };
 		int nh = 1 + (int)r.below(3);
 		for (int i = 0; i < nh; i++) {
 			bool svc = r.coin();
-			bool mod = r.below(3) == 0;
-			if (r.below(4) != 0 && req.compare(0, 8, "objects/") == 0 && req.compare(8, 6, "delete") != 0) {
+			std::string verb = r.below(3) == 0 ? "m" : "q";
+			if (r.below(8) == 0) verb = "d";
+			if (r.below(8) == 0) verb = r.coin() ? "a:reschedule-check" : "a:remove-acknowledgement";
+			if (r.below(4) != 0) {
 				/* mostly the request the case's user was built for */
-				svc = svcPerm;
-				mod = req.compare(8, 6, "modify") == 0;
+				if (req.compare(0, 8, "objects/") == 0) { svc = svcPerm; verb = std::string(1, req[8]); }
+				else if (req == "actions/reschedule-check" || req == "actions/remove-acknowledgement") verb = "a:" + req.substr(8);
 			}
-			std::string h = std::string("H ") + (mod ? "m" : "q") + (svc ? " Service" : " Host");
+			std::string h = "H " + verb + (svc ? " Service" : " Host");
 			uint64_t k = r.below(8);
 			if (k < 2) h += " n=" + pickH(!svc);
 			else if (k == 2) { h += " p="; int n = (int)r.below(3); for (int j = 0; j < n; j++) h += (j ? "," : "") + pickH(!svc); }
@@ -908,6 +1079,11 @@ static void GenCase(Rng& r)
 			if (svc && r.coin()) h += " j";
 			Run(h);
 		}
+		/* handlers whose targets are not config objects: is their permission string enforced? */
+		static const char *kinds[] = { "templates", "variables", "types", "status", "console" };
+		static const char *kindPerm[] = { "templates/query/Host", "variables", "types", "status/query", "console" };
+		for (int i = 0; i < 5; i++)
+			if (req == kindPerm[i] || r.below(10) == 0) Run(std::string("G ") + kinds[i]);
 	}
 	Run("A " + Enc(req) + " Host,Service");
 	if (r.coin()) Run("A " + Enc(FlipCase(r, kRequired[r.below(kRequiredN)])) + " Host,Service");
@@ -960,6 +1136,7 @@ int main(int argc, char **argv)
 {
 	if (argc < 2) { fprintf(stderr, "usage: h_c18 gen|ops ...\n"); return 2; }
 	InitIcinga();
+	InitJoinTargets();
 	ResetUser();
 	InitHttp();
 
